@@ -59,17 +59,19 @@ type c07Field struct {
 }
 
 type c07Val struct {
-	T string   `json:"t"` // n i b s l
-	I int64    `json:"i,omitempty"`
+	T string   `json:"t"` // n i b s l d
+	I int64    `json:"i,omitempty"` // "d": the row's index into D
 	B bool     `json:"b,omitempty"`
 	S []byte   `json:"s,omitempty"`
 	L []c07Val `json:"l,omitempty"`
+	D []string `json:"d,omitempty"` // "d": the column's whole dictionary (shared by every cell of one array)
 }
 
 type c07Child struct {
 	Name string `json:"name"`
 	Kind string `json:"kind"`
 	Ptr  bool   `json:"ptr,omitempty"`
+	Over string `json:"over,omitempty"` // enum | dict_string
 }
 
 type c07Decl struct {
@@ -134,7 +136,7 @@ func c07OverCoq(o string, n int) string {
 		return App("C07.OFixedBin", N(uint64(n)))
 	}
 	m := map[string]string{"int8": "OInt8", "int16": "OInt16", "int32": "OInt32", "uint8": "OUint8", "uint16": "OUint16",
-		"uint32": "OUint32", "uint64": "OUint64", "float32": "OFloat32", "enum": "OEnum", "binary": "OBinary",
+		"uint32": "OUint32", "uint64": "OUint64", "float32": "OFloat32", "enum": "OEnum", "dict_string": "ODictString", "binary": "OBinary",
 		"large_string": "OLargeString", "large_binary": "OLargeBinary", "date": "ODate", "timestamp": "OTimestamp",
 		"timestamp_utc": "OTimestampUTC", "time": "OTime", "duration": "ODuration", "decimal": "ODecimal", "struct": "OStruct"}
 	return "C07." + m[o]
@@ -156,8 +158,12 @@ func (d c07Decl) goType() reflect.Type {
 			if c.Ptr {
 				ct = reflect.PointerTo(ct)
 			}
+			tv := c.Name
+			if c.Over != "" {
+				tv += "," + c.Over
+			}
 			fs = append(fs, reflect.StructField{Name: fmt.Sprintf("C%d", i), Type: ct,
-				Tag: reflect.StructTag("vgirpc:" + strconv.Quote(c.Name))})
+				Tag: reflect.StructTag("vgirpc:" + strconv.Quote(tv))})
 		}
 		t = reflect.StructOf(fs)
 	}
@@ -203,7 +209,7 @@ func (d c07Decl) coq() string {
 		g = App("C07.GMap", c07KindCoq[d.Kind], c07KindCoq[d.Kind2])
 	case "struct":
 		g = App("C07.GStruct", ListOf(d.Children, func(c c07Child) string {
-			return "(" + B(c.Name) + ", " + c07KindCoq[c.Kind] + ", " + Bool(c.Ptr) + ")"
+			return "(" + B(c.Name) + ", " + c07KindCoq[c.Kind] + ", " + Bool(c.Ptr) + ", " + c07OverCoq(c.Over, 0) + ")"
 		}))
 	}
 	def := "None"
@@ -459,6 +465,8 @@ func (v c07Val) coq() string {
 		return App("C07.VS", B(string(v.S)))
 	case "l":
 		return App("C07.VL", ListOf(v.L, c07Val.coq))
+	case "d":
+		return App("C07.VD", Z(v.I), ListOf(v.D, B))
 	}
 	panic("c07: bad val " + v.T)
 }
@@ -575,6 +583,123 @@ func (b c07Batch) emptyInnerStream() []byte {
 	return buf.Bytes()
 }
 
+func c07HasDict(dt arrow.DataType) bool {
+	switch t := dt.(type) {
+	case *arrow.DictionaryType:
+		return true
+	case *arrow.ListType:
+		return c07HasDict(t.Elem())
+	case *arrow.MapType:
+		return c07HasDict(t.KeyType()) || c07HasDict(t.ItemType())
+	case *arrow.StructType:
+		for _, f := range t.Fields() {
+			if c07HasDict(f.Type) {
+				return true
+			}
+		}
+	}
+	return false
+}
+
+func c07Validity(vals []c07Val) (*memory.Buffer, int) {
+	nulls := 0
+	bits := make([]byte, (len(vals)+7)/8)
+	for i, v := range vals {
+		if v.T == "n" {
+			nulls++
+		} else {
+			bits[i/8] |= 1 << (i % 8)
+		}
+	}
+	if nulls == 0 {
+		return nil, 0
+	}
+	return memory.NewBufferBytes(bits), nulls
+}
+
+// c07Array builds an array of len(vals) cells. Types without a dictionary go
+// through the ordinary builders. A dictionary-encoded array is assembled from
+// an EXPLICIT dictionary (the whole domain, unused and duplicate entries
+// included, exactly as the case describes it) and an explicit index array, the
+// way pyarrow ships categoricals — a dictionary builder would deduplicate and
+// keep only the entries the rows use, so a one-row batch would always carry
+// index 0. Lists and structs around a dictionary are assembled from raw data.
+func c07Array(mem memory.Allocator, dt arrow.DataType, vals []c07Val) arrow.Array {
+	if !c07HasDict(dt) {
+		bl := array.NewBuilder(mem, dt)
+		defer bl.Release()
+		for _, v := range vals {
+			c07Append(bl, v)
+		}
+		return bl.NewArray()
+	}
+	switch t := dt.(type) {
+	case *arrow.DictionaryType:
+		var dict []string
+		for _, v := range vals {
+			if v.T == "d" {
+				dict = v.D
+				break
+			}
+		}
+		vb := array.NewStringBuilder(mem)
+		defer vb.Release()
+		for _, s := range dict {
+			vb.Append(s)
+		}
+		values := vb.NewArray()
+		defer values.Release()
+		ib := array.NewBuilder(mem, t.IndexType)
+		defer ib.Release()
+		for _, v := range vals {
+			if v.T == "n" {
+				ib.AppendNull()
+			} else {
+				c07Append(ib, c07Val{T: "i", I: v.I})
+			}
+		}
+		indices := ib.NewArray()
+		defer indices.Release()
+		return array.NewDictionaryArray(t, indices, values)
+	case *arrow.ListType:
+		var child []c07Val
+		offsets := []int32{0}
+		for _, v := range vals {
+			if v.T != "n" {
+				child = append(child, v.L...)
+			}
+			offsets = append(offsets, int32(len(child)))
+		}
+		ca := c07Array(mem, t.Elem(), child)
+		defer ca.Release()
+		vbuf, nulls := c07Validity(vals)
+		data := array.NewData(t, len(vals), []*memory.Buffer{vbuf, memory.NewBufferBytes(arrow.Int32Traits.CastToBytes(offsets))},
+			[]arrow.ArrayData{ca.Data()}, nulls, 0)
+		defer data.Release()
+		return array.NewListData(data)
+	case *arrow.StructType:
+		children := make([]arrow.ArrayData, t.NumFields())
+		for j, f := range t.Fields() {
+			cv := make([]c07Val, len(vals))
+			for i, v := range vals {
+				if v.T == "n" || j >= len(v.L) {
+					cv[i] = c07Val{T: "n"}
+				} else {
+					cv[i] = v.L[j]
+				}
+			}
+			ca := c07Array(mem, f.Type, cv)
+			defer ca.Release()
+			children[j] = ca.Data()
+		}
+		vbuf, nulls := c07Validity(vals)
+		data := array.NewData(t, len(vals), []*memory.Buffer{vbuf}, children, nulls, 0)
+		defer data.Release()
+		return array.NewStructData(data)
+	}
+	panic(fmt.Sprintf("c07: cannot assemble %v around a dictionary", dt))
+}
+
 // record builds the (one-row) Arrow batch for b.
 func (b c07Batch) record() arrow.RecordBatch {
 	mem := memory.DefaultAllocator
@@ -606,10 +731,7 @@ func (b c07Batch) record() arrow.RecordBatch {
 	sch := c07Schema(b.Fields, b.SchemaMeta)
 	cols := make([]arrow.Array, len(b.Fields))
 	for i, f := range sch.Fields() {
-		bl := array.NewBuilder(mem, f.Type)
-		c07Append(bl, b.Vals[i])
-		cols[i] = bl.NewArray()
-		bl.Release()
+		cols[i] = c07Array(mem, f.Type, []c07Val{b.Vals[i]})
 	}
 	rec := array.NewRecordBatch(sch, cols, 1)
 	for _, c := range cols {
@@ -783,6 +905,23 @@ func c07Run(in c07In) CaseOut {
 	if in.Sent.Wrapped {
 		tags = append(tags, "wrapped")
 	}
+	if !eff.Wrapped {
+		var walk func(v c07Val)
+		walk = func(v c07Val) {
+			if v.T == "d" {
+				tags = append(tags, "dict-cell")
+				if v.I > 0 {
+					tags = append(tags, "dict-nonfirst-index")
+				}
+			}
+			for _, e := range v.L {
+				walk(e)
+			}
+		}
+		for _, v := range eff.Vals {
+			walk(v)
+		}
+	}
 	if !eff.Wrapped && len(eff.Fields) == len(in.Decl) && len(eff.Vals) == len(in.Decl) {
 		for i, d := range in.Decl {
 			if d.Shape == "map" && d.Ptr && eff.Vals[i].T != "n" {
@@ -826,7 +965,7 @@ type c07Combo struct {
 }
 
 var c07Family = []c07Combo{
-	{"leaf", "string", "", "", []string{"", "", "enum", "large_string", "decimal"}},
+	{"leaf", "string", "", "", []string{"", "", "enum", "enum", "dict_string", "large_string", "decimal"}},
 	{"leaf", "int64", "", "", []string{"", "", "", "int8", "int16", "int32", "uint8", "uint16", "uint32", "uint64"}},
 	{"leaf", "int", "", "", []string{"", "int32"}},
 	{"leaf", "int32", "", "", []string{""}}, {"leaf", "int16", "", "", []string{""}}, {"leaf", "int8", "", "", []string{""}},
@@ -838,6 +977,7 @@ var c07Family = []c07Combo{
 	{"leaf", "time", "", "", []string{"date", "timestamp", "timestamp_utc", "time"}},
 	{"leaf", "duration", "", "", []string{"", "duration"}},
 	{"slice", "string", "", "", []string{""}}, {"slice", "string", "", "large_string", []string{""}},
+	{"slice", "string", "", "enum", []string{""}}, {"slice", "string", "", "dict_string", []string{""}},
 	{"slice", "int64", "", "", []string{""}}, {"slice", "int64", "", "int32", []string{""}},
 	{"slice", "float64", "", "", []string{""}}, {"slice", "bool", "", "", []string{""}},
 	{"slice", "bytes", "", "large_binary", []string{""}}, {"slice", "int32", "", "", []string{""}},
@@ -892,7 +1032,11 @@ func c07GenDecl(r *rand.Rand, rare bool) c07Decl {
 	if c.shape == "struct" {
 		n := 1 + r.Intn(3)
 		for i := 0; i < n; i++ {
-			d.Children = append(d.Children, c07Child{Name: fmt.Sprintf("c%d", i), Kind: c07ChildKinds[r.Intn(len(c07ChildKinds))], Ptr: r.Intn(3) == 0})
+			ch := c07Child{Name: fmt.Sprintf("c%d", i), Kind: c07ChildKinds[r.Intn(len(c07ChildKinds))], Ptr: r.Intn(3) == 0}
+			if r.Intn(4) == 0 { // a dictionary-encoded child
+				ch.Kind, ch.Over = "string", []string{"enum", "dict_string"}[r.Intn(2)]
+			}
+			d.Children = append(d.Children, ch)
 		}
 	}
 	d.Ptr = r.Intn(4) == 0
@@ -961,11 +1105,23 @@ func c07GenVal(r *rand.Rand, t c07Ty, nullP int) c07Val {
 	case "decimal":
 		return iv(-99999999999, 99999999999)
 	case "dict":
-		return c07Val{T: "s", S: []byte([]string{"red", "green", ""}[r.Intn(3)])}
+		return c07DictCell(r, c07GenDict(r))
 	case "list":
 		n := r.Intn(4)
 		v := c07Val{T: "l", L: []c07Val{}}
+		var dict []string // the items of one list column share one dictionary
+		if t.Elem.Ty.K == "dict" {
+			dict = c07GenDict(r)
+		}
 		for i := 0; i < n; i++ {
+			if dict != nil && r.Intn(4) != 0 {
+				v.L = append(v.L, c07DictCell(r, dict))
+				continue
+			}
+			if dict != nil {
+				v.L = append(v.L, c07Val{T: "n"})
+				continue
+			}
 			v.L = append(v.L, c07GenVal(r, t.Elem.Ty, 4))
 		}
 		return v
@@ -994,6 +1150,42 @@ func c07GenVal(r *rand.Rand, t c07Ty, nullP int) c07Val {
 		return v
 	}
 	panic("c07: genval " + t.K)
+}
+
+// c07GenDict returns a whole dictionary: the enum's domain as a client such as
+// pyarrow ships it, with unused entries and sometimes duplicates.
+func c07GenDict(r *rand.Rand) []string {
+	switch r.Intn(7) {
+	case 0:
+		return []string{"only"}
+	case 1:
+		return []string{"slow", "fast", "turbo"}
+	case 2:
+		return []string{"red", "green", "blue", "green", "red"}
+	case 3:
+		return []string{"", "a", ""}
+	case 4:
+		return []string{"ünï", "x y", "0", "zero-time"}
+	case 5:
+		d := make([]string, 130+r.Intn(200)) // more entries than an int8 index could address
+		for i := range d {
+			d[i] = fmt.Sprintf("m%03d", i%97)
+		}
+		return d
+	}
+	n := 2 + r.Intn(5)
+	d := make([]string, n)
+	for i := range d {
+		d[i] = []string{"a", "b", "c", "d"}[r.Intn(4)]
+	}
+	return d
+}
+
+// c07DictCell picks the row's index: first / last / middle / random.
+func c07DictCell(r *rand.Rand, dict []string) c07Val {
+	n := len(dict)
+	i := []int{0, n - 1, n / 2, r.Intn(n), r.Intn(n)}[r.Intn(5)]
+	return c07Val{T: "d", I: int64(i), D: dict}
 }
 
 func c07RandTy(r *rand.Rand) c07Ty {
@@ -1223,13 +1415,61 @@ func c07Boundary(r *rand.Rand) []c07In {
 				d.FixedN = 3
 			}
 			if c.shape == "struct" {
-				d.Children = []c07Child{{Name: "s", Kind: "string"}, {Name: "n", Kind: "int64", Ptr: true}, {Name: "b", Kind: "bytes"}}
+				d.Children = []c07Child{{Name: "s", Kind: "string"}, {Name: "n", Kind: "int64", Ptr: true}, {Name: "b", Kind: "bytes"},
+					{Name: "e", Kind: "string", Over: "enum"}, {Name: "ds", Kind: "string", Ptr: true, Over: "dict_string"}}
 			}
 			for _, ptr := range []bool{false, true} {
 				d.Ptr = ptr
 				add("b:family-equal", []c07Decl{d}, eq([]c07Decl{d}, 0))
 				add("b:family-null", []c07Decl{d}, eq([]c07Decl{d}, 1))
 			}
+		}
+	}
+	// dictionary-encoded parameters: the dictionary carries the whole domain
+	// (unused entries, duplicates) and the row's index selects entry 0 / the
+	// last / a middle one / nothing (null); for enum and dict_string, as a
+	// field, a pointer field, a list item and a struct child, plain and wrapped
+	{
+		dom := []string{"slow", "fast", "turbo", "fast", "eco"}
+		cell := func(i int) c07Val { return c07Val{T: "d", I: int64(i), D: dom} }
+		for _, o := range []string{"enum", "dict_string"} {
+			for _, ptr := range []bool{false, true} {
+				d := c07Decl{Name: "mode", Shape: "leaf", Kind: "string", Over: o, Ptr: ptr}
+				ds := []c07Decl{i64, d}
+				for _, i := range []int{0, 4, 2, 3, 1} {
+					b := eq(ds, 0)
+					b.Vals[1] = cell(i)
+					add("b:dict-index", ds, b)
+				}
+				b := eq(ds, 0)
+				b.Vals[1] = c07Val{T: "n"}
+				add("b:dict-null-index", ds, b)
+				b = eq(ds, 0)
+				b.Vals[1] = c07Val{T: "d", I: 0, D: []string{"only"}}
+				add("b:dict-single-entry", ds, b)
+				b = eq(ds, 0)
+				b.Vals[1] = cell(2)
+				add("b:dict-wrapped", ds, c07Wrap(b, false))
+			}
+			dd := c07Decl{Name: "mode", Shape: "leaf", Kind: "string", Over: o, Nullable: true, Default: sp("eco")}
+			b := eq([]c07Decl{dd}, 0)
+			b.Vals[0] = c07Val{T: "n"}
+			add("b:dict-null-default", []c07Decl{dd}, b)
+			sl := []c07Decl{{Name: "modes", Shape: "slice", Kind: "string", EO: o}}
+			b = eq(sl, 0)
+			b.Vals[0] = c07Val{T: "l", L: []c07Val{cell(4), cell(0), {T: "n"}, cell(2), cell(3)}}
+			add("b:dict-list-items", sl, b)
+			b = eq(sl, 0)
+			b.Vals[0] = c07Val{T: "l", L: []c07Val{}}
+			add("b:dict-list-empty", sl, b)
+			st := []c07Decl{{Name: "cfg", Shape: "struct", Over: "struct", Children: []c07Child{
+				{Name: "n", Kind: "int64"}, {Name: "mode", Kind: "string", Over: o}, {Name: "alt", Kind: "string", Ptr: true, Over: o}}}}
+			b = eq(st, 0)
+			b.Vals[0] = c07Val{T: "l", L: []c07Val{{T: "i", I: 5}, cell(2), cell(4)}}
+			add("b:dict-struct-child", st, b)
+			b = eq(st, 0)
+			b.Vals[0] = c07Val{T: "l", L: []c07Val{{T: "i", I: 5}, cell(1), {T: "n"}}}
+			add("b:dict-struct-child-null", st, b)
 		}
 	}
 	// defaults on every leaf kind, pointer and not: null and non-null cells
